@@ -195,7 +195,8 @@ theorem gen_merge_subcluster (expf : Rat → Rat) (m : MergeFn) (thr : Rat) (c s
   rw [hnew_ls]
   have hacc := gen_accept expf m thr (c.mergedSummary s) c.summary s.summary (minSafe (c.n + s.n)) c.w s.w hnew hold hO
   simp only [hmn, Clu.summary] at hacc
-  rw [hacc, iteL_bool]
+  rw [hacc]
+  simp only [guardL_int, guardL_arr, iteLS_bool]
   by_cases ha : accept m (tabOf expf) thr (c.mergedSummary s) { ls := c.ls, n := c.n } { ls := s.ls, n := s.n } = true
   · have ha' : accept m (tabOf expf) thr (c.mergedSummary s) c.summary s.summary = true := ha
     simp only [ha, ha', if_true]
